@@ -848,3 +848,84 @@ func ruleConfigEnforcement(p *Prog, r *Out) {
 		r.check(ok, "connection send window starts at 65535", p.pos(sd.Pos()), "clientWindow = 65535", "the server's connection-level send window no longer starts at 65535 octets (RFC 7540 s6.9.2: not affected by SETTINGS): it sends more than the peer granted, or stalls early")
 	}
 }
+
+func init() {
+	register(&Rule{
+		Name: "server-construction", Props: []string{"C13", "C18", "C01", "C08", "C17"}, Engine: "AST", Floor: 3,
+		Doc: "every function that builds a Server value applies ServerConfig.defaults to the configuration it stores (a zero configuration advertises nothing and enforces a limit of zero concurrent streams), and ReadPreface accepts exactly a complete, byte-equal client preface",
+		Run: ruleServerConstruction,
+	})
+}
+
+func ruleServerConstruction(p *Prog, r *Out) {
+	n := 0
+	var names []string
+	for name := range p.funcDecls {
+		names = append(names, name)
+	}
+	sortStrings(names)
+	for _, name := range names {
+		fd := p.funcDecls[name]
+		if fd.Body == nil {
+			continue
+		}
+		var lit *ast.CompositeLit
+		ast.Inspect(fd.Body, func(nd ast.Node) bool {
+			if cl, ok := nd.(*ast.CompositeLit); ok && p.text(cl.Type) == "Server" {
+				lit = cl
+			}
+			return true
+		})
+		if lit == nil {
+			continue
+		}
+		n++
+		r.fn(name)
+		// the configuration stored is one defaults() was applied to
+		cnfSrc := ""
+		for _, e := range lit.Elts {
+			if kv, ok := e.(*ast.KeyValueExpr); ok && p.text(kv.Key) == "cnf" {
+				cnfSrc = p.text(kv.Value)
+			}
+		}
+		applied := false
+		inspectCalls(fd.Body, func(c *ast.CallExpr) {
+			if p.calleeOf(c) != "(*ServerConfig).defaults" {
+				return
+			}
+			recv := squash(p.text(c.Fun.(*ast.SelectorExpr).X))
+			if cnfSrc != "" && recv == cnfSrc && c.Pos() < lit.Pos() {
+				applied = true
+			}
+			if cnfSrc == "" && strings.HasSuffix(recv, ".cnf") && c.Pos() > lit.Pos() {
+				applied = true
+			}
+		})
+		r.check(applied, name+" applies the configuration defaults", p.pos(lit.Pos()), "cnf.defaults() on the configuration the Server keeps", name+" builds a Server whose configuration never went through ServerConfig.defaults: MaxConcurrentStreams stays 0, so the connection enforces a limit of zero streams (every request is refused with REFUSED_STREAM) while advertising none, and MaxHeaderListSize stays 0 (no limit)")
+	}
+	if n < 2 {
+		r.bad("Server constructors", "?", fmt.Sprintf("only %d functions building a Server were found", n))
+	}
+	if fd := p.decl("ReadPreface"); fd != nil {
+		r.fn("ReadPreface")
+		ok := false
+		ast.Inspect(fd.Body, func(nd ast.Node) bool {
+			ifs, isIf := nd.(*ast.IfStmt)
+			if !isIf || !p.isConjunctionOf(ifs.Cond, "err==nil", "n==prefaceLen") {
+				return true
+			}
+			for _, s := range ifs.Body.List {
+				if in, isIn := s.(*ast.IfStmt); isIn && squash(p.text(in.Cond)) == "bytes.Equal(b,http2Preface)" {
+					if res := firstReturn(in.Body); len(res) == 1 && p.text(res[0]) == "true" {
+						ok = true
+					}
+				}
+			}
+			return true
+		})
+		last := retResults(fd.Body.List[len(fd.Body.List)-1])
+		r.check(ok && len(last) == 1 && p.text(last[0]) == "false", "preface accepted only when complete and equal", p.pos(fd.Pos()), "err == nil && n == prefaceLen && bytes.Equal(b, preface) -> true; else false", "ReadPreface no longer accepts exactly a complete, byte-equal client connection preface (RFC 7540 s3.5)")
+	} else {
+		r.undecided("ReadPreface", "?", "no longer resolves")
+	}
+}
